@@ -2,18 +2,25 @@
 
 P  lean/MjProof/Props/C10.lean: certificate theorems over the reals (Mathlib: Matrix.PosDef, convexity):
    suboptimality_certificate (+ witness / infimum forms), distance_certificate, minimiser_unique,
-   island_decomposition (+ block_cost_separates, unconstrained_block_minimiser), primalSearch_checked,
-   primal_monotone_partial, warmstart_picks_cheaper.
+   island_decomposition (+ block_cost_separates, unconstrained_block_minimiser), island_solve_is_global_minimiser
+   (+ scalar-row form) for ANY labelling of dofs / rows that makes M, J block diagonal, island_partition_checker_sound,
+   primalSearch_checked, primal_monotone_partial, warmstart_picks_cheaper.
 T  (a) the SAME Lean checker (Model/SolverCert.lean: `certify`, built on the C11/C12 model of
    mj_constraintUpdate_impl) is compiled (drv_c10) and run on IEEE doubles on the real outputs of the engine; its
    constraint cost / forces are compared with what the engine's own mj_constraintUpdate returns at the same point;
    (b) the hand model of PrimalSearch / updateBracket / PrimalPrepare / PrimalEval (scalar rows) is compared BITWISE
-   with the real static functions of engine_solver.c on synthetic one-dof line problems.
-S  oracle on generated scenes (equality, friction loss, limits, pyramidal and elliptic contacts of every condim),
-   for Newton / CG / PGS, dense / sparse, islands on / off, warm start on / off, tolerance 1e-12:
+   with the real static functions of engine_solver.c on synthetic one-dof line problems;
+   (c) the Lean partition checker (Model/IslandSep.lean `partitionOk`, proved to decide the hypotheses of the island
+   theorem) is run on the REAL output of mj_island (dof_island, efc_island) with the dense M and J of every solve that
+   used islands: the partition handed to the per-island solvers must make the documented cost block separable.
+S  oracle on generated scenes (equality, friction loss, limits, pyramidal and elliptic contacts of every condim; plus
+   coupled-tree scenes: several kinematic trees coupled only by joint / tendon equalities, tendon limits and friction
+   loss, spatial tendons, connect / weld with body and site semantics, over adjacent and distant trees, first / last /
+   inner dofs), for Newton / CG / PGS, dense / sparse, islands on / off, warm start on / off, tolerance 1e-12:
    converged primal solves have a certified sub-optimality <= BOUND_REL (scaled like the solver's own statistics);
-   the solvers agree pairwise within the certified radii and within AGREE_REL; island and monolithic solves agree;
-   a primal solver never ends above the cheaper of its two candidate starting points.
+   the solvers agree pairwise within the certified radii; the per-island and the monolithic solve of the same solver
+   agree within ISLAND_AGREE (qacc in the M-norm, efc_force); a primal solver never ends above the cheaper of its two
+   candidate starting points.
 """
 import json
 import math
@@ -30,6 +37,8 @@ META = {
                  "norm in the M^-1 metric; the same Lean checker, compiled, is evaluated on the real outputs of the engine's "
                  "Newton / CG / PGS solvers (dense inertia, dense Jacobian, aref, D, R, frictionloss, contacts read from mjData); "
                  "hand model of the PrimalSearch exit logic and PrimalEval (scalar rows) tied BITWISE to the static C functions; "
+                 "verified partition checker (Lean, proved to decide the hypotheses of the island theorem) evaluated on the real "
+                 "dof_island / efc_island of mj_island with the dense M, J of every per-island solve; "
                  "property oracle over generated scenes",
     "text": "Proved over the reals for every positive definite M, every J, a0, aref and every convex differentiable constraint "
             "cost s with force f = -grad s (a hypothesis in general; DISCHARGED here for every problem made of scalar rows - equality, friction "
@@ -39,7 +48,12 @@ META = {
             "form with M w = g for positive semidefinite M), the M-distance of a to the (unique) stationary point is "
             "<= sqrt(g' M^-1 g), a stationary point is the global minimiser; for block-separable costs (islands) the "
             "minimisers are exactly the tuples of block minimisers and block-diagonal M, J give such a cost, with a0 minimising "
-            "a block without constraint rows; for the modelled PrimalSearch, for every evaluation function, every exit either "
+            "a block without constraint rows; for ANY labelling of the dofs and rows (the engine's dof_island / efc_island, -1 = outside "
+            "every island) under which M couples only equally labelled dofs, every row's Jacobian is supported on the dofs of the row's "
+            "label, no row is outside every island and the rows of one cone block share a label, a point that solves every island's "
+            "sub-problem and equals qacc_smooth outside the islands is the global minimiser (island_solve_is_global_minimiser), and the "
+            "executable partition check returns true exactly when these hypotheses hold (island_partition_checker_sound); "
+            "for the modelled PrimalSearch, for every evaluation function, every exit either "
             "returns step 0, or a point whose evaluated cost difference is < 0, or is one of three exits the code does not "
             "cost-check (LSresult 3, 7, converged bracket candidate); for scalar rows the modelled PrimalPrepare + PrimalEval return exactly the "
             "change of the documented cost (Gauss term + row costs of the C11/C12 model) along the search line, so a cost-checked "
@@ -48,7 +62,9 @@ META = {
             "cheaper of qacc_warmstart and qacc_smooth. The theorem is unbounded; WHICH solver outputs get the certificate "
             "evaluated is sampled (level: proof of the certificate, sampled application).",
     "note": "the solver iterations (Newton Hessian / Cholesky updates, CG directions, PGS sweeps, QCQP) are not modelled: their "
-            "results are judged by the certificate. Convexity of the elliptic cone cost is a hypothesis of the certificate "
+            "results are judged by the certificate. Island DISCOVERY (engine_island.c: treeNext / treeIterInit / unionConstraintTrees) is "
+            "not modelled either (C17 models the union-find and the index maps): its output is judged on every per-island solve by the "
+            "verified partition checker, so which partitions get checked is sampled (flex contacts / flex equalities are not generated). Convexity of the elliptic cone cost is a hypothesis of the certificate "
             "theorems (proved separately in Props/C12 under the impedance relation). PrimalEval is modelled for scalar rows "
             "only (elliptic cone line evaluation: oracle only). PGS (dual method) is judged by the cost gap to the best other solve of the "
             "same rows, not by the primal upper bound. Observation recorded by the oracle: for the same state the dense and the sparse "
@@ -70,6 +86,9 @@ THEOREMS = [
     "MjProof.C10.island_decomposition",
     "MjProof.C10.block_cost_separates",
     "MjProof.C10.unconstrained_block_minimiser",
+    "MjProof.C10.island_solve_is_global_minimiser",
+    "MjProof.C10.island_solve_is_global_minimiser_scalar_rows",
+    "MjProof.C10.island_partition_checker_sound",
     "MjProof.C10.primalSearch_checked",
     "MjProof.C10.primalEval_is_cost_difference",
     "MjProof.C10.primalSearch_checked_decreases_cost",
@@ -200,6 +219,13 @@ WITNESS = {
     "state xfrc_applied 0.0 0.0 0.0 0.47389352809997437 -0.27909916138535346 0.0 0.0 0.0 0.0 0.0 0.0 0.0 0.0 0.0 0.0 0.0 0.0 0.0"
     ]
     }
+# per-island vs monolithic solve of the same problem by the same solver, both converged at tolerance 1e-12: (M-norm distance /
+# (|qacc|_M + 1), max efc_force difference / max(1, |force|)); observed maxima on the unmodified tree in the comments
+ISLAND_AGREE = {"Newton": (1e-8, 1e-7),            # 1.6e-12, 1.7e-11
+                "Newton/elliptic": (1e-6, 1e-5),   # 1.0e-9, 6.0e-9
+                "CG": (1e-5, 1e-4),                # 7.5e-9, 3.6e-8
+                "CG/elliptic": (1e-4, 1e-3),       # 7.9e-8, 7.3e-7
+                "PGS": (1e-5, 1e-3)}               # 7.2e-8, 6.8e-6   (PGS/elliptic: not judged, see PGS_ELLIPTIC_KEY)
 COST_TIE_REL = 1e-9       # Lean constraint cost vs mj_constraintUpdate cost
 FORCE_TIE_REL = 1e-9      # Lean forces vs mj_constraintUpdate forces
 MONO_REL = 1e-9           # final cost may exceed the start cost by rounding only
@@ -218,7 +244,7 @@ def fmt(v):
     return " ".join(repr(float(x)) for x in v)
 
 
-def gen_script(ctx, nmodels):
+def gen_script(ctx, nmodels, ntrees):
     rng = ctx.rng
     script, meta = [], []
     for mi in range(-1, nmodels):
@@ -275,7 +301,242 @@ def gen_script(ctx, nmodels):
                 script.append(op)
                 meta.append(("solve", dict(info, op=op, solver=solver, noisland=noisland, jac=jac, cone=cone, nowarm=nowarm,
                                            truncated=iters < 10, loose=tol != TOL)))
+    # coupled-tree scenes: every solver, monolithic and per island, with BOTH Jacobian layouts (mj_island finds the trees of a
+    # row by a different scan in each layout)
+    kinds = {}
+    for ti in range(ntrees):
+        mlines, joints, tinfo = gen_tree_scene(rng)
+        if tinfo["nv"] == 0 or not tinfo["kinds"]:
+            continue
+        mi = 1000 + ti
+        for k in tinfo["kinds"]:
+            kinds[k] = kinds.get(k, 0) + 1
+        script.append("model")
+        script += mlines + ["end"]
+        meta.append(("model", {"model": mi, "lines": mlines}))
+        for si in range(2):
+            setlines = tree_state(rng, joints, tinfo["nv"])
+            nsettle = rng.choice((0, 0, 2))
+            info = {"model": mi, "state": si, "set": setlines, "settle": nsettle, "family": "coupled-trees"}
+            for l in setlines:
+                script.append(l)
+                meta.append(("state", info))
+            script.append("settle %d" % nsettle)
+            meta.append(("settle", info))
+            cone = rng.choice((E("mjCONE_PYRAMIDAL"), E("mjCONE_ELLIPTIC")))
+            nowarm = 1 if rng.random() < 0.25 else 0
+            cfgs = [(s_, j_, n_, ITER[s_], TOL) for s_ in (NEWTON, CG, PGS) for j_ in (E("mjJAC_DENSE"), E("mjJAC_SPARSE")) for n_ in (1, 0)]
+            cfgs += [(NEWTON, E("mjJAC_DENSE"), 0, 1, TOL), (CG, E("mjJAC_SPARSE"), 0, 2, TOL)]
+            for solver, jac, noisland, iters, tol in cfgs:
+                op = "solve %d %d %d %d %d %r %d %d %r 0" % (solver, cone, jac, noisland, iters, tol, nowarm, 50, 1.0)
+                script.append(op)
+                meta.append(("solve", dict(info, op=op, solver=solver, noisland=noisland, jac=jac, cone=cone, nowarm=nowarm,
+                                           truncated=iters < 10, loose=False)))
+    ctx.extra["coupled_tree_scene_constraints"] = kinds
     return script, meta
+
+
+# ---------------------------------------------------------------- coupled-tree scenes (island discovery feeds the solvers)
+GENERIC_KINDS = ("jointeq", "tendoneq", "tendonlimit", "tendonfriction", "spatial", "connect", "weld", "siteconnect", "siteweld")
+
+
+def gen_tree_scene(rng):
+    """Several kinematic trees hanging off the world (single-dof trees, chains, two-joint bodies, ball roots) that interact ONLY
+    through constraints spanning two or three trees: joint equalities, fixed tendons with an equality / an active limit / friction
+    loss (rows whose trees mj_island finds by scanning the Jacobian row), spatial tendons, and connect / weld equalities with body
+    or site semantics (trees looked up from the bodies).  Which dof of which tree takes part (first / last / any) and which trees
+    (adjacent / far apart in dof order) is random.  Returns (lines, joints, info)."""
+    L = []
+    h = [0]
+
+    def newh():
+        h[0] += 1
+        return h[0]
+    contacts = rng.random() < 0.25
+    L.append("option timestep %r" % rng.uniform(0.001, 0.004))
+    L.append("option integrator %d" % E(rng.choice(("mjINT_EULER", "mjINT_IMPLICITFAST"))))
+    L.append("option solver %d" % NEWTON)
+    L.append("option cone %d" % E("mjCONE_PYRAMIDAL"))
+    L.append("option jacobian %d" % E("mjJAC_AUTO"))
+    if rng.random() < 0.1:
+        L.append("option gravity 0 0 0")
+    L.append("option enableflags 0")
+    L.append("option disableflags 0")
+    if contacts:
+        g = newh()
+        L += ["geom %d 0" % g, "set %d type %d" % (g, E("mjGEOM_PLANE")), "set %d size 5 5 0.1" % g, "name %d floor" % g]
+    ntree = rng.choice((2, 2, 3, 3, 4, 5))
+    joints, bodies, sites, trees = [], [], [], []
+    nv = nq = 0
+    for t in range(ntree):
+        shape = rng.choice(("single", "single", "single", "chain2", "chain3", "twojoint", "ballroot"))
+        if nv > 9:
+            shape = "single"
+        plan = {"single": [["s"]], "chain2": [["s"], ["s"]], "chain3": [["s"], ["s"], ["s"]], "twojoint": [["s", "s"]],
+                "ballroot": [["b"], ["s"]]}[shape]
+        parent = 0
+        tj = []
+        for bi, bj in enumerate(plan):
+            bh = newh()
+            bn = "t%db%d" % (t, bi)
+            L.append("body %d %d" % (bh, parent))
+            L.append("name %d %s" % (bh, bn))
+            pos = [0.7 * t + rng.uniform(-0.1, 0.1), rng.uniform(-0.3, 0.3), rng.uniform(0.4, 1.0)] if bi == 0 else \
+                [rng.uniform(-0.3, 0.3), rng.uniform(-0.3, 0.3), rng.uniform(-0.4, -0.1)]
+            L.append("set %d pos %s" % (bh, fmt(pos)))
+            for kind in bj:
+                jh = newh()
+                jn = "j%d" % (len(joints) + 1)
+                jt = "ball" if kind == "b" else rng.choice(("slide", "hinge"))
+                L.append("joint %d %d" % (jh, bh))
+                L.append("name %d %s" % (jh, jn))
+                L.append("set %d type %d" % (jh, E("mjJNT_" + jt.upper())))
+                if jt != "ball":
+                    ax = [rng.gauss(0, 1) for _ in range(3)]
+                    nrm = math.sqrt(sum(x * x for x in ax)) or 1.0
+                    L.append("set %d axis %s" % (jh, fmt([x / nrm for x in ax] if nrm > 1e-3 else [0, 0, 1])))
+                    L.append("set %d pos %s" % (jh, fmt([rng.uniform(-0.1, 0.1) for _ in range(3)])))
+                    if rng.random() < 0.25:
+                        lo = rng.uniform(-0.6, 0.1)
+                        L.append("set %d limited %d" % (jh, E("mjLIMITED_TRUE")))
+                        L.append("set %d range %s" % (jh, fmt([lo, lo + rng.uniform(0.1, 0.6)])))
+                    if rng.random() < 0.25:
+                        L.append("set %d frictionloss %r" % (jh, rng.uniform(0.05, 1.0)))
+                if rng.random() < 0.4:
+                    L.append("set %d damping %r" % (jh, rng.uniform(0.05, 1.5)))
+                if rng.random() < 0.4:
+                    L.append("set %d armature %r" % (jh, rng.uniform(0.01, 0.3)))
+                j = {"name": jn, "type": jt, "tree": t, "dofadr": nv, "qposadr": nq, "ndof": 3 if jt == "ball" else 1}
+                joints.append(j)
+                tj.append(j)
+                nv += j["ndof"]
+                nq += 4 if jt == "ball" else 1
+            gh = newh()
+            L.append("geom %d %d" % (gh, bh))
+            L.append("name %d g%d" % (gh, gh))
+            L.append("set %d type %d" % (gh, E(rng.choice(("mjGEOM_SPHERE", "mjGEOM_CAPSULE", "mjGEOM_BOX")))))
+            L.append("set %d size %s" % (gh, fmt([rng.uniform(0.05, 0.15) for _ in range(3)])))
+            L.append("set %d pos %s" % (gh, fmt([rng.uniform(-0.1, 0.1) for _ in range(3)])))
+            L.append("set %d density %r" % (gh, rng.uniform(300, 3000)))
+            if contacts:
+                L.append("set %d condim %d" % (gh, rng.choice((1, 3, 4, 6))))
+            else:
+                L.append("set %d contype 0" % gh)
+                L.append("set %d conaffinity 0" % gh)
+            sh = newh()
+            sn = "s%d" % (len(sites) + 1)
+            L.append("site %d %d" % (sh, bh))
+            L.append("name %d %s" % (sh, sn))
+            L.append("set %d pos %s" % (sh, fmt([rng.uniform(-0.15, 0.15) for _ in range(3)])))
+            sites.append({"name": sn, "tree": t, "body": bn})
+            bodies.append({"name": bn, "tree": t})
+            parent = bh
+        trees.append(tj)
+    kinds = []
+    ntd = [0]
+
+    def pick_trees(k):
+        """k distinct trees: adjacent in dof order half of the time"""
+        if rng.random() < 0.5 or ntree <= k:
+            a = rng.randint(0, ntree - min(k, ntree))
+            ts = list(range(a, a + min(k, ntree)))
+        else:
+            ts = sorted(rng.sample(range(ntree), k))
+        if rng.random() < 0.5:
+            ts.reverse()
+        return ts
+
+    def pick_joint(t, scalar=True):
+        js = [j for j in trees[t] if j["type"] != "ball"] if scalar else trees[t]
+        if not js:
+            return None
+        return rng.choice((js[0], js[-1], rng.choice(js)))
+
+    def fixed_tendon(ts):
+        js = [pick_joint(t) for t in ts]
+        if any(j is None for j in js):
+            return None
+        th = newh()
+        ntd[0] += 1
+        tn = "td%d" % ntd[0]
+        L.append("tendon %d" % th)
+        L.append("name %d %s" % (th, tn))
+        for j in js:
+            L.append("wrap %d joint %s %r" % (th, j["name"], rng.choice((-1, 1)) * rng.uniform(0.3, 2.0)))
+        return th, tn
+
+    for _ in range(rng.choice((1, 1, 2, 2, 3))):
+        kind = rng.choice(GENERIC_KINDS[:5] * 2 + GENERIC_KINDS[5:])
+        if kind == "jointeq":
+            ta, tb = pick_trees(2)
+            a, b = pick_joint(ta), pick_joint(tb)
+            if a is None or b is None:
+                continue
+            eh = newh()
+            L += ["equality %d" % eh, "set %d type %d" % (eh, E("mjEQ_JOINT")), "set %d objtype %d" % (eh, E("mjOBJ_JOINT")),
+                  "set %d name1 %s" % (eh, a["name"]), "set %d name2 %s" % (eh, b["name"]),
+                  "set %d data %s" % (eh, fmt([rng.uniform(-0.2, 0.2), rng.choice((-1, 1)) * rng.uniform(0.5, 1.5), 0, 0, 0]))]
+        elif kind in ("tendoneq", "tendonlimit", "tendonfriction"):
+            td = fixed_tendon(pick_trees(rng.choice((2, 2, 3))))
+            if td is None:
+                continue
+            th, tn = td
+            if kind == "tendoneq":
+                eh = newh()
+                L += ["equality %d" % eh, "set %d type %d" % (eh, E("mjEQ_TENDON")), "set %d objtype %d" % (eh, E("mjOBJ_TENDON")),
+                      "set %d name1 %s" % (eh, tn)]
+                if rng.random() < 0.4:
+                    td2 = fixed_tendon(pick_trees(2))
+                    if td2 is not None:
+                        L.append("set %d name2 %s" % (eh, td2[1]))
+                L.append("set %d data %s" % (eh, fmt([rng.uniform(-0.2, 0.2), rng.uniform(0.5, 1.5), 0, 0, 0])))
+            elif kind == "tendonlimit":
+                L.append("set %d limited %d" % (th, E("mjLIMITED_TRUE")))
+                c = rng.uniform(-0.3, 0.3)
+                L.append("set %d range %s" % (th, fmt([c - 0.02, c + 0.02])))
+                if rng.random() < 0.5:
+                    L.append("set %d margin 5" % th)      # the limit row is present whatever the length
+            else:
+                L.append("set %d frictionloss %r" % (th, rng.uniform(0.05, 1.0)))
+        elif kind == "spatial":
+            ta, tb = pick_trees(2)
+            sa = rng.choice([x for x in sites if x["tree"] == ta])
+            sb = rng.choice([x for x in sites if x["tree"] == tb])
+            th = newh()
+            ntd[0] += 1
+            L += ["tendon %d" % th, "name %d td%d" % (th, ntd[0]), "wrap %d site %s" % (th, sa["name"]), "wrap %d site %s" % (th, sb["name"])]
+            if rng.random() < 0.5:
+                L += ["set %d limited %d" % (th, E("mjLIMITED_TRUE")), "set %d range 0 0.05" % th]
+            else:
+                L.append("set %d frictionloss %r" % (th, rng.uniform(0.05, 1.0)))
+        else:
+            ta, tb = pick_trees(2)
+            site = kind.startswith("site")
+            pool = sites if site else bodies
+            a = rng.choice([x for x in pool if x["tree"] == ta])
+            b = rng.choice([x for x in pool if x["tree"] == tb])
+            eh = newh()
+            L += ["equality %d" % eh, "set %d type %d" % (eh, E("mjEQ_WELD") if kind.endswith("weld") else E("mjEQ_CONNECT")),
+                  "set %d objtype %d" % (eh, E("mjOBJ_SITE") if site else E("mjOBJ_BODY")),
+                  "set %d name1 %s" % (eh, a["name"]), "set %d name2 %s" % (eh, b["name"])]
+            if not site:
+                L.append("set %d data %s" % (eh, "0 0 0 0 0 0 1 0 0 0 1" if kind == "weld" else fmt([rng.uniform(-0.1, 0.1) for _ in range(3)])))
+        kinds.append(kind)
+    return L, joints, {"ntree": ntree, "nv": nv, "nq": nq, "kinds": kinds, "contacts": contacts}
+
+
+def tree_state(rng, joints, nv):
+    qpos = []
+    for j in joints:
+        if j["type"] == "ball":
+            q = [rng.gauss(0, 1) for _ in range(4)]
+            nrm = math.sqrt(sum(x * x for x in q)) or 1.0
+            qpos += [x / nrm for x in q]
+        else:
+            qpos.append(rng.uniform(-0.5, 0.5))
+    sc = rng.choice((0.2, 1.0))
+    return ["state qpos " + fmt(qpos), "state qvel " + fmt([rng.gauss(0, 1) * sc for _ in range(nv)]),
+            "state qfrc_applied " + fmt([rng.gauss(0, 2) if rng.random() < 0.5 else 0.0 for _ in range(nv)])]
 
 
 def cert_line(d, points):
@@ -292,6 +553,42 @@ def cert_line(d, points):
     return " ".join(toks)
 
 
+def isl_line(d):
+    """the engine's island partition of this solve for the Lean partition checker (`isl` op of drv_c10)"""
+    nv, nefc = d["nv"], d["nefc"]
+    ell = E("mjCNSTR_CONTACT_ELLIPTIC")
+    grp = [(nefc + d["id"][i]) if d["type"][i] == ell else i for i in range(nefc)]
+    toks = ["isl", str(nv), str(nefc), str(d["nisland"])]
+    toks += [hexf(x) for x in d["M"]] + [hexf(x) for x in d["J"]]
+    toks += [str(x) for x in d["dof_island"]] + [str(x) for x in d["efc_island"]] + [str(x) for x in grp]
+    return " ".join(toks)
+
+
+def row_tree_stats(d, stats):
+    """coverage: rows whose Jacobian spans several kinematic trees, by constraint type and Jacobian layout; and the sub-class
+    'the next tree in dof order takes part through its first dof only'"""
+    nv, tid = d["nv"], d["dof_treeid"]
+    lay = "sparse" if d["sparse"] else "dense"
+    first = {}
+    for j, t in enumerate(tid):
+        first.setdefault(t, j)
+    prev = None
+    for r in range(d["nefc"]):
+        if prev == (d["type"][r], d["id"][r]):
+            continue
+        prev = (d["type"][r], d["id"][r])
+        sup = [j for j in range(nv) if d["J"][r * nv + j] != 0.0]
+        ts = sorted({tid[j] for j in sup})
+        if len(ts) < 2:
+            continue
+        k = "type%d/%s/%dtrees" % (d["type"][r], lay, len(ts))
+        stats["multi_tree_rows"][k] = stats["multi_tree_rows"].get(k, 0) + 1
+        for a, b in zip(ts, ts[1:]):
+            if b == a + 1 and [j for j in sup if tid[j] == b] == [first[b]]:
+                k2 = "type%d/%s" % (d["type"][r], lay)
+                stats["next_tree_first_dof_only"][k2] = stats["next_tree_first_dof_only"].get(k2, 0) + 1
+
+
 def parse_cert(out):
     """-> (list of point dicts, list of pair distances) or None"""
     if not out.startswith("ok |"):
@@ -304,6 +601,29 @@ def parse_cert(out):
                     "gnorm": unhex(w[11]), "force": [unhex(t) for t in w[13:]]})
     dist = [unhex(t) for t in parts[-1].split()[1:]]
     return pts, dist
+
+
+def describe_partition(d, out):
+    """human-readable account of the first offending entries reported by the Lean partition checker"""
+    if not out.startswith("bad "):
+        return None
+    parts = [p.split() for p in out[4:].split("|")]
+    if len(parts) != 4:
+        return None
+    nv, msgs = d["nv"], []
+    pm, pj, pf, pg = (p[1:] for p in parts)
+    for k in range(0, len(pj) - 1, 2):
+        r, j = int(pj[k]), int(pj[k + 1])
+        msgs.append("constraint row %d (efc_type %d, efc_id %d, efc_island %d) has J[%d][%d] = %r but dof %d (tree %d) has dof_island %d"
+                    % (r, d["type"][r], d["id"][r], d["efc_island"][r], r, j, d["J"][r * nv + j], j, d["dof_treeid"][j], d["dof_island"][j]))
+    for k in range(0, len(pm) - 1, 2):
+        i, j = int(pm[k]), int(pm[k + 1])
+        msgs.append("M[%d][%d] = %r couples dofs of islands %d and %d" % (i, j, d["M"][i * nv + j], d["dof_island"][i], d["dof_island"][j]))
+    for r in pf:
+        msgs.append("constraint row %d (efc_type %d) belongs to no island" % (int(r), d["type"][int(r)]))
+    for k in range(0, len(pg) - 1, 2):
+        msgs.append("rows %s and %s of one elliptic cone are in different islands" % (pg[k], pg[k + 1]))
+    return "; ".join(msgs[:4]) if msgs else None
 
 
 def converged(d):
@@ -352,8 +672,12 @@ def gen_ls(rng, style):
 def run(ctx):
     ctx.rule = ("generated scenes (free/ball/slide/hinge trees on a plane, equalities, tendons, limits, friction loss, condim "
                 "1/3/4/6), two states each (random, optionally settled for 3 or 10 steps), one cone type per state; per state the six "
-                "solves Newton/CG/PGS x monolithic/islands with random dense/sparse Jacobian, tolerance 1e-12; per solve one "
-                "certificate line (points: final qacc, qacc_smooth, qacc_warmstart) and per state one cross-solver line; plus "
+                "solves Newton/CG/PGS x monolithic/islands with random dense/sparse Jacobian, tolerance 1e-12; coupled-tree scenes "
+                "(2-5 trees of 1-4 dofs coupled only by 1-3 constraints spanning 2-3 trees: joint / tendon equality, tendon limit, "
+                "tendon friction loss, spatial tendon, connect / weld by body or site; adjacent trees half of the time; first / last / any "
+                "dof), two states each, all of Newton/CG/PGS x monolithic/islands x dense/sparse; per solve one "
+                "certificate line (points: final qacc, qacc_smooth, qacc_warmstart), per per-island solve one partition line "
+                "(M, J, dof_island, efc_island) and per state one cross-solver line; plus "
                 "synthetic one-dof line-search problems. A case is distinct by (model, state, solve op); non-trivial = nefc > 0")
     ctx.lean_props(THEOREMS)
     drv = ctx.driver("drv_c10")
@@ -378,11 +702,18 @@ def run(ctx):
     ctx.extra["linesearch_exit_histogram"] = hist
     # ---------------------------------------------------------------- S / T(a): engine scenes
     nmodels = 200 if thorough else 24
-    script, meta = gen_script(ctx, nmodels)
+    ntrees = 150 if thorough else 20
+    script, meta = gen_script(ctx, nmodels, ntrees)
     rc, outs, err = ctx.run_lines([impl], script, timeout=3000)
     if rc != 0 or len(outs) != len(meta):
-        ctx.oracle_failure("c10:harness-crash", "solver harness crashed or lost sync (rc=%s, %d outputs for %d commands)" % (rc, len(outs), len(meta)),
-                           {"stderr": err[-500:]})
+        # the command that produced no output, and the model it ran on
+        at = min(len(outs), len(meta) - 1)
+        mlines = next((i_["lines"] for k_, i_ in reversed(meta[:at + 1]) if k_ == "model"), None)
+        kind_at, info_at = meta[at]
+        ctx.oracle_failure("c10:harness-crash", "solver harness crashed or lost sync (rc=%s, %d outputs for %d commands) at the %s command %s"
+                           % (rc, len(outs), len(meta), kind_at, info_at.get("op", "")),
+                           {"stderr": err[-500:], "model_lines": mlines, "state_lines": info_at.get("set"), "settle": info_at.get("settle"),
+                            "op": info_at.get("op"), "replay": "feed 'model' + model_lines + 'end', the state_lines, 'settle N', then the op to the c10_solvers harness"})
         return
     fails = {}
 
@@ -416,6 +747,10 @@ def run(ctx):
             continue
         lines.append(cert_line(d, [d["qacc"], d["qacc_smooth"], d["qacc_warmstart"]]))
         owners.append(("solve", idx))
+        # the partition mj_island handed to the per-island solvers: hypotheses of island_solve_is_global_minimiser
+        if not d["noisland"] and d["nisland"] > 0 and "efc_island" in d and "dof_island" in d:
+            lines.append(isl_line(d))
+            owners.append(("isl", idx))
         # dense and sparse Jacobians can build different row sets for the same state (rows with an empty Jacobian are kept in
         # dense mode and dropped in sparse mode: same minimiser, cost shifted by a constant), so only solves with identical
         # rows are compared with each other
@@ -431,10 +766,27 @@ def run(ctx):
         raise RuntimeError("drv_c10 failed: rc=%s %s" % (rcl, errl[-300:]))
     stats = {"solves": len(solves), "certified": 0, "converged": {}, "not_converged": {}, "max_bound_rel": {}, "max_cost_tie": 0.0,
              "max_force_tie": 0.0, "max_resid_rel": 0.0, "max_mono_excess_rel": 0.0, "max_pair_violation": 0.0, "max_agree_rel": {},
-             "cert_refused": 0, "rows": {}, "max_force_agree_rel": {}}
+             "cert_refused": 0, "rows": {}, "max_force_agree_rel": {}, "island_partitions_checked": 0, "multi_tree_rows": {},
+             "next_tree_first_dof_only": {}, "max_island_vs_monolithic": {}, "island_pairs": 0}
     cert_of = {}
     suspects = {}
+    noisecost = {}       # what the engine's own cost evaluation in doubles cannot resolve (unscaled cost units), per converged solve
     for (kind, ref), line, out in zip(owners, lines, certs):
+        if kind == "isl":
+            info, d, rp = solves[ref]
+            stats["island_partitions_checked"] += 1
+            row_tree_stats(d, stats)
+            if out != "ok":
+                name = SOLNAME[d["solver"]] + "+islands"
+                what = describe_partition(d, out)
+                if what is None:
+                    raise RuntimeError("drv_c10 refused an isl line: %s / %s" % (out[:100], line[:200]))
+                fail("c10:island-partition-not-separable", "%s (%s Jacobian, %d islands): %s: the per-island solve does not minimise the documented "
+                     "objective (Props/C10 island_solve_is_global_minimiser needs this hypothesis)"
+                     % (name, "sparse" if d["sparse"] else "dense", d["nisland"], what),
+                     dict(rp, checker_output=out, dof_island=d["dof_island"], efc_island=d["efc_island"], dof_treeid=d["dof_treeid"],
+                          efc_type=d["type"], efc_id=d["id"]))
+            continue
         pc = parse_cert(out)
         if kind == "solve":
             info, d, rp = solves[ref]
@@ -476,6 +828,7 @@ def run(ctx):
                 noise = NOISE_REL * (abs(pf["gauss"]) + abs(pf["s"])) * scale
                 stats["noise_limited"] = stats.get("noise_limited", 0) + (1 if noise > BOUND_REL[SOLNAME[d["solver"]] + ("/elliptic" if elliptic else "") + ("@loose" if info["loose"] else "")] else 0)
                 thr = max(noise, BOUND_REL[SOLNAME[d["solver"]] + ("/elliptic" if elliptic else "") + ("@loose" if info["loose"] else "")])
+                noisecost[ref] = NOISE_REL * (abs(pf["gauss"]) + abs(pf["s"]))
                 if ok_numerics and (bound > thr or d["solver"] == PGS):
                     suspects[ref] = (bound, thr, name, elliptic, noise)
             else:
@@ -521,6 +874,22 @@ def run(ctx):
                     fsc = max([1.0] + [abs(x) for x in da["force"]])
                     frel = max([abs(x - y) for x, y in zip(da["force"], db["force"])] + [0.0]) / fsc
                     stats["max_force_agree_rel"][pk] = max(stats["max_force_agree_rel"].get(pk, 0.0), frel)
+                    # the property's own clause: solving per island agrees with the monolithic solve (same solver)
+                    if da["solver"] == db["solver"] and da["noisland"] != db["noisland"] and ia in noisecost and ib in noisecost:
+                        ell = any(t == E("mjCNSTR_CONTACT_ELLIPTIC") for t in da["type"])
+                        sk = SOLNAME[da["solver"]] + ("/elliptic" if ell else "")
+                        stats["island_pairs"] += 1
+                        cur = stats["max_island_vs_monolithic"].get(sk, [0.0, 0.0])
+                        stats["max_island_vs_monolithic"][sk] = [max(cur[0], rel), max(cur[1], frel)]
+                        # a cost difference below the resolution of the cost moves the minimiser by up to sqrt(2 * resolution) in the M-norm
+                        slack = 1.0 + 10.0 * math.sqrt(2.0 * (noisecost[ia] + noisecost[ib])) / (nrm + 1.0) / ISLAND_AGREE.get(sk, (1.0, 1.0))[0]
+                        if sk in ISLAND_AGREE and (rel > ISLAND_AGREE[sk][0] * slack or frel > ISLAND_AGREE[sk][1] * slack):
+                            isl, mono = (ia, ib) if not da["noisland"] else (ib, ia)
+                            fail("c10:island-vs-monolithic-disagree", "%s: the per-island solve and the monolithic solve of the same problem (both left "
+                                 "their loops through their own exit tests) differ by %r in the M-norm (relative, bound %g) and by %r in efc_force "
+                                 "(relative, bound %g); qacc islands %r, monolithic %r"
+                                 % (sk, rel, ISLAND_AGREE[sk][0] * slack, frel, ISLAND_AGREE[sk][1] * slack, solves[isl][1]["qacc"][:8], solves[mono][1]["qacc"][:8]),
+                                 dict(solves[isl][2], other_op=solves[mono][0]["op"]))
     # a converged solve whose certificate is large: report it, with the cost gap to the best other solve of the same problem as
     # direct evidence (cost(a) - cost(b) > 0 for a concrete b: no theorem needed to see that a is not the minimiser)
     best_cost = {}
@@ -552,7 +921,10 @@ def run(ctx):
     ctx.extra["oracle_stats"] = stats
     ctx.extra["oracle_failures"] = fails
     ctx.extra["thresholds"] = {"bound_rel": BOUND_REL, "cost_tie_rel": COST_TIE_REL, "force_tie_rel": FORCE_TIE_REL,
-                               "mono_rel": MONO_REL, "resid_rel": RESID_REL}
+                               "mono_rel": MONO_REL, "resid_rel": RESID_REL, "island_agree": ISLAND_AGREE}
+    ctx.oblige("correspondence: every partition mj_island handed to a per-island solve satisfies the hypotheses of island_solve_is_global_minimiser "
+               "(Lean partition checker on dof_island / efc_island / dense M, J of %d solves)" % stats["island_partitions_checked"], "correspondence",
+               "c10:island-partition-not-separable" not in fails)
     ctx.assumptions.append("C10: which solver outputs get the verified certificate evaluated is sampled; convexity of the elliptic cone cost is a "
                            "hypothesis of the certificate theorems (proved in Props/C12 under the impedance relation)")
     if lines:
